@@ -154,6 +154,10 @@ func worker(t *testing.T, world string, sp *Spec) {
 	recheck := int(envInt("VERIF_RECHECK", 25))
 	outPath := os.Getenv("VERIF_OUT")
 	progress := outPath + ".progress"
+	timed := os.Getenv("VERIF_TIMED") != ""
+	if timed {
+		recheck = 0
+	}
 
 	out := WorkerOut{Prop: sp.Prop, Worker: idx, Cases: sp.Cases, Faults: map[string]int{}, Probes: map[string]int{}, ViolCount: map[string]int{}, StepHist: map[string]int{}}
 	hashes := map[string]bool{}
@@ -177,7 +181,13 @@ func worker(t *testing.T, world string, sp *Spec) {
 		}
 		os.WriteFile(progress, []byte(strconv.FormatUint(seed, 10)), 0o644)
 		keep := out.Runs < 1
-		r := RunOne(t, sp.Mk, NewSeedTape(seed), sp.Limits, keep)
+		var r RunResult
+		if timed {
+			r = RunTimed(t, sp.Mk, seed)
+			keep = false
+		} else {
+			r = RunOne(t, sp.Mk, NewSeedTape(seed), sp.Limits, keep)
+		}
 		out.Runs++
 		out.SeedLast = seed
 		out.Steps += int64(r.Steps)
@@ -227,7 +237,14 @@ func worker(t *testing.T, world string, sp *Spec) {
 			smp, _ := json.Marshal(map[string]any{"seed": seed, "steps": r.Steps, "sim_ms": r.SimTimeMs, "trace": clip(r.Trace, 60)})
 			out.Samples = append(out.Samples, smp)
 		}
-		if v := r.First(); v != nil {
+		if v := r.First(); v != nil && timed {
+			ck := v.Class + "|" + v.Key
+			out.ViolCount[ck]++
+			if seenViol[ck] < 1 {
+				seenViol[ck]++
+				out.Violations = append(out.Violations, mkReplay(world, sp, &r))
+			}
+		} else if v != nil {
 			ck := v.Class + "|" + v.Key
 			out.ViolCount[ck]++
 			if seenViol[ck] < 2 && len(out.Violations) < 12 {
@@ -297,7 +314,12 @@ func tapeFor(rf *ReplayFile) *Tape {
 // replay runs one replay file and reports what it saw.
 func replay(t *testing.T, world string, sp *Spec) {
 	rf := loadReplay()
-	r := RunOne(t, sp.Mk, tapeFor(&rf), sp.Limits, true)
+	var r RunResult
+	if os.Getenv("VERIF_TIMED") != "" {
+		r = RunTimed(t, sp.Mk, rf.Seed)
+	} else {
+		r = RunOne(t, sp.Mk, tapeFor(&rf), sp.Limits, true)
+	}
 	out := mkReplay(world, sp, &r)
 	out.OrigSeed, out.Minimised, out.OrigLen = rf.OrigSeed, rf.Minimised, rf.OrigLen
 	if r.Harness != "" {
